@@ -332,7 +332,8 @@ type runStats struct {
 }
 
 func (s *runStats) result(res *evid.Result) {
-	res.Counts = map[string]int{
+	res.Counts = map[string]int{}
+	for k, v := range map[string]int{
 		"repetitions-history-mode":                              s.histReps,
 		"repetitions-race-mode":                                 s.raceReps,
 		"history-reps-with-real-overlap":                        s.overlapR,
@@ -341,6 +342,10 @@ func (s *runStats) result(res *evid.Result) {
 		"porcupine-unknown(timeout)":                            s.lin.unknown,
 		"history-reps-not-checked-by-porcupine-after-a-timeout": s.linSkip,
 		"porcupine-operations":                                  s.lin.ops,
+	} {
+		if v != 0 {
+			res.Counts[k] = v
+		}
 	}
 }
 
